@@ -1534,3 +1534,196 @@ Proof.
     unfold enc_subscribe, subscribe_vh, subscribe_props, up. cbn [app encs_agree enc_agree live_agree].
     repeat split; assumption.
 Qed.
+
+(* ------------------------------------------------------------------ *)
+(* PUBLISH *)
+Lemma fresh_publish fx : 48 <= fx < 64 ->
+  fresh_pkt (b2n (n2b fx)) = (KPublish, setf (M F_fixed) (VN fx) zero_pkt).
+Proof.
+  intros H. rewrite b2n_n2b_small by lia. unfold fresh_pkt.
+  assert (E : fx / 16 = 3) by lia. rewrite E. reflexivity.
+Qed.
+
+(* the optional packet identifier *)
+Lemma dif_pid_at v acc d pos rest steps :
+  valid_val U16 v ->
+  let c := eval_cond CQoS12 acc no_env in
+  at_pos d pos ((if c then encode U16 v else []) ++ rest) ->
+  exists steps',
+    run_dec1 (DIf CQoS12 [DGet (M F_packetID) U16]) (mk_state acc d pos steps) =
+      Run (mk_state (if c then setf (M F_packetID) (canon U16 v) acc else acc) d
+                    (pos + length (if c then encode U16 v else [])) steps')
+    /\ at_pos d (pos + length (if c then encode U16 v else [])) rest.
+Proof.
+  intros Hv c Hat. rewrite dif_step.
+  change (eval_cond CQoS12 (dp (mk_state acc d pos steps)) (env_of (mk_state acc d pos steps))) with c.
+  destruct c.
+  - destruct (dget_at (M F_packetID) U16 v acc d pos rest steps) as [D H]; try discriminate; try assumption; try exact I.
+    exists (S steps). split; [|exact H]. cbn [run_dec]. rewrite D. reflexivity.
+  - exists steps. cbn [length]. rewrite Nat.add_0_r. split; [reflexivity|exact Hat].
+Qed.
+
+(* the payload: whatever is left *)
+Lemma dif_payload_at v acc d pos steps :
+  at_pos d pos (valS v) ->
+  exists steps',
+    run_dec1 (DIf CMoreData [DGet (M F_payload) Raw]) (mk_state acc d pos steps) =
+      Run (mk_state (match valS v with [] => acc | _ => setf (M F_payload) (VS (valS v)) acc end) d
+                    (length d) steps').
+Proof.
+  intros Hat. rewrite dif_step. cbn [eval_cond env_of ce_pos ce_len]. 
+  change (dpos (mk_state acc d pos steps)) with pos. change (ddata (mk_state acc d pos steps)) with d.
+  destruct (valS v) as [|x r] eqn:E.
+  - rewrite (at_pos_end _ _ Hat), Nat.ltb_irrefl. exists steps. reflexivity.
+  - pose proof (at_pos_more _ _ _ _ Hat) as Hlt. rewrite (proj2 (Nat.ltb_lt _ _) Hlt).
+    exists (S steps). cbn [run_dec]. rewrite (dget_raw_at (M F_payload) v acc d pos steps); try exact I.
+    + rewrite E. reflexivity.
+    + rewrite E. discriminate.
+    + rewrite E. exact Hat.
+Qed.
+
+Lemma publish_map_ok : forallb (entry_okb false) publish_map = true
+  /\ nodupb_N (map eid publish_map) = true /\ nodup_refs publish_map = true.
+Proof. vm_compute. repeat split. Qed.
+
+Definition publish_fields : list (fref * wt) :=
+  (M F_topicName, Bin) :: (M F_packetID, U16) :: (M F_payload, Raw) :: refs_of publish_map.
+
+Record dom_publish (p : pkt) : Prop := {
+  dpu_fixed : 48 <= getN (M F_fixed) p < 64;
+  dpu_topic : valid_val Bin (getf (M F_topicName) p);
+  dpu_pid : valid_val U16 (getf (M F_packetID) p);
+  dpu_pid0 : eval_cond CQoS12 p no_env = false -> getN (M F_packetID) p = 0;
+  dpu_fields : fields_valid (refs_of publish_map) p;
+  dpu_ups : Forall up_ok (uprops p);
+  dpu_sids : Forall sid_ok (subids p);
+  dpu_size : remaining_ok KPublish p
+}.
+
+Lemma publish_finish p p' :
+  Forall (fun rw => vagree (fst rw) (snd rw) p p') ((M F_fixed, U8) :: publish_fields) ->
+  uprops p' = uprops p -> subids p' = subids p ->
+  snapshot KPublish p' = snapshot KPublish p /\ encs_agree enc_publish p p'.
+Proof.
+  intros Hag Hu Hs. split.
+  - apply agree_all_of in Hag. unfold publish_fields, refs_of, publish_map in Hag.
+    cbn [agree_all getf map eref ewt fst snd] in Hag. split_ands.
+    unfold snapshot, snap_publish, oN, oB, oS, getN, getB, getS, getf.
+    rewrite Hu, Hs. rewrite_agree p'. reflexivity.
+  - apply vagree_all_of in Hag. unfold publish_fields, refs_of, publish_map in Hag.
+    cbn [vagree_all map eref ewt fst snd] in Hag. split_ands.
+    assert (Hpl : vagree (M F_payload) Bin p p').
+    { match goal with H : vagree (M F_payload) Raw p p' |- _ => exact H end. }
+    unfold enc_publish, publish_vh, publish_payload, publish_props, up.
+    cbn [app encs_agree enc_agree live_agree cond_agree]. repeat split; assumption.
+Qed.
+
+Lemma run_enc1_if c a b p : run_enc1 (EIf c a b) p =
+  if eval_cond c p no_env then run_enc a p else run_enc b p.
+Proof. cbn [run_enc1]. rewrite !run_list_eq. reflexivity. Qed.
+
+Theorem publish_roundtrip p : dom_publish p -> roundtrip KPublish p.
+Proof.
+  intros [Hfx Htopic Hpid Hpid0 Hm Hups Hsids Hsize].
+  assert (Hok : Forall (entry_ok p) publish_map)
+    by (apply (entries_ok false); [apply publish_map_ok|discriminate|exact Hm]).
+  set (P := section_bytes publish_map false AddSub p).
+  assert (EP : run_enc publish_props p = Some P)
+    by (apply (run_enc_section publish_map false AddSub p Hok); discriminate).
+  set (fx := getN (M F_fixed) p) in *.
+  set (fresh := setf (M F_fixed) (VN fx) zero_pkt).
+  assert (Hfresh : fresh_pkt (b2n (n2b fx)) = (KPublish, fresh)) by (apply fresh_publish; exact Hfx).
+  set (topic := getf (M F_topicName) p) in *. set (pid := getf (M F_packetID) p) in *.
+  set (pl := getf (M F_payload) p).
+  set (c := eval_cond CQoS12 p no_env) in *.
+  set (a1 := setf (M F_topicName) (canon Bin topic) fresh).
+  assert (Ec : eval_cond CQoS12 a1 no_env = c) by reflexivity.
+  set (a2 := if c then setf (M F_packetID) (canon U16 pid) a1 else a1).
+  set (PID := if c then encode U16 pid else []).
+  set (body := encode Bin topic ++ PID ++ enc_vb (len P) ++ P ++ valS pl).
+  assert (Evh : run_enc (publish_vh ++ publish_payload) p = Some body).
+  { unfold publish_vh, publish_payload. rewrite <- app_assoc.
+    change (?a :: ?b :: ?e :: ?c ++ ?d) with ([a; b; e] ++ c ++ d).
+    rewrite !run_enc_app, EP. cbn [run_enc]. rewrite run_enc1_vblen, EP, !run_enc1_if.
+    cbn [run_enc1 getf_opt option_map opt_app]. fold c.
+    assert (E1 : (if c then run_enc [EFill (M F_packetID) U16] p else run_enc [] p) = Some PID).
+    { unfold PID. destruct c; cbn [run_enc run_enc1 getf_opt option_map opt_app]; rewrite ?app_nil_r; reflexivity. }
+    rewrite E1.
+    assert (E2 : (if eval_cond (CNonEmpty (M F_payload)) p no_env
+                  then run_enc [EFill (M F_payload) Raw] p else run_enc [] p) = Some (valS pl)).
+    { cbn [eval_cond]. unfold getS. change (getf (M F_payload) p) with pl.
+      remember (valS pl) as plb eqn:E. destruct plb.
+      - reflexivity.
+      - cbn [run_enc run_enc1 getf_opt option_map opt_app encode enc_raw].
+        change (vals p F_payload) with pl. rewrite <- E, app_nil_r. reflexivity. }
+    rewrite E2. cbn [opt_app]. unfold body. rewrite ?app_nil_r, <- ?app_assoc. reflexivity. }
+  assert (HP : len P < 268435456).
+  { unfold remaining_ok in Hsize. cbn [body_of] in Hsize. rewrite Evh in Hsize. unfold body in Hsize.
+    rewrite !len_app in Hsize. lia. }
+  destruct (dget_at (M F_topicName) Bin topic fresh body 0 (PID ++ enc_vb (len P) ++ P ++ valS pl) 0)
+    as [D1 H1]; try discriminate; try assumption; try exact I.
+  { intros _. right. reflexivity. }
+  { apply at_pos_0. }
+  fold a1 in D1.
+  destruct (dif_pid_at pid a1 body (0 + length (encode Bin topic)) (enc_vb (len P) ++ P ++ valS pl) 1 Hpid)
+    as [st2 [D2 H2]].
+  { rewrite Ec. exact H1. }
+  rewrite Ec in D2, H2. fold a2 PID in D2, H2.
+  assert (Ha2 : forallb (fun e => is_zero (ewt e) (getf (eref e) a2)) publish_map = true)
+    by (unfold a2; destruct c; vm_compute; reflexivity).
+  destruct (dgetany_at publish_map false AddSub p a2 body (0 + length (encode Bin topic) + length PID)
+                       (valS pl) st2)
+    as [st3 [D3 H3]]; try discriminate; try assumption; try apply publish_map_ok; try exact I.
+  fold P in D3, H3.
+  set (a3 := section_result publish_map false AddSub p a2) in *.
+  destruct (dif_payload_at pl a3 body _ st3 H3) as [st4 D4].
+  set (p' := match valS pl with [] => a3 | _ => setf (M F_payload) (VS (valS pl)) a3 end) in *.
+  (* agreement *)
+  assert (Hag3 : Forall (fun rw => vagree (fst rw) (snd rw) p a3)
+                        ((M F_fixed, U8) :: (M F_topicName, Bin) :: (M F_packetID, U16) :: refs_of publish_map)).
+  { apply Forall_cons; [|apply Forall_cons; [|apply Forall_cons]]; cbn [fst snd].
+    - apply section_agree_out; [vm_compute; reflexivity|]. unfold a2. destruct c; reflexivity.
+    - apply section_agree_out; [vm_compute; reflexivity|]. unfold a2. destruct c; apply canon_idem.
+    - apply section_agree_out; [vm_compute; reflexivity|]. unfold a2. destruct c eqn:Ecv.
+      + apply canon_idem.
+      + change (VN 0 = VN (getN (M F_packetID) p)). rewrite (Hpid0 eq_refl). reflexivity.
+    - apply section_agree_in; [apply publish_map_ok|exact Ha2]. }
+  assert (Hpl3 : getf (M F_payload) a3 = VN 0).
+  { unfold a3. rewrite getf_section_result, getf_restore_other.
+    - unfold a2. destruct c; reflexivity.
+    - intros e Hin. unfold publish_map in Hin. cbn [In] in Hin.
+      repeat (destruct Hin as [<-|Hin]; [reflexivity|]). contradiction. }
+  assert (Hag : Forall (fun rw => vagree (fst rw) (snd rw) p p') ((M F_fixed, U8) :: publish_fields)).
+  { unfold publish_fields.
+    assert (Hother : forall r w, fref_eqb r (M F_payload) = false -> vagree r w p a3 -> vagree r w p p').
+    { intros r w Hr H. unfold vagree, p' in *. destruct (valS pl); [exact H|].
+      rewrite getf_setf_other by exact Hr. exact H. }
+    inversion Hag3 as [|? ? G1 Hag3a]; subst. inversion Hag3a as [|? ? G2 Hag3b]; subst.
+    inversion Hag3b as [|? ? G3 Hag3c]; subst. cbn [fst snd] in *.
+    apply Forall_cons; [|apply Forall_cons; [|apply Forall_cons; [|apply Forall_cons]]]; cbn [fst snd].
+    - apply Hother; [reflexivity|exact G1].
+    - apply Hother; [reflexivity|exact G2].
+    - apply Hother; [reflexivity|exact G3].
+    - unfold vagree, p'. fold pl. destruct (valS pl) eqn:E.
+      + rewrite Hpl3. cbn [canon]. rewrite E. reflexivity.
+      + rewrite getf_setf_same. cbn [canon valS]. rewrite E. reflexivity.
+    - apply Forall_forall. intros rw Hin. rewrite Forall_forall in Hag3c. specialize (Hag3c rw Hin).
+      apply Hother; [|exact Hag3c]. unfold refs_of, publish_map in Hin. cbn [map In eref ewt fst snd] in Hin.
+      repeat (destruct Hin as [<-|Hin]; [reflexivity|]). contradiction. }
+  assert (Hu : uprops p' = uprops p).
+  { assert (E : uprops a3 = uprops p) by (unfold a3; rewrite uprops_section_result; unfold a2; destruct c; reflexivity).
+    unfold p'. destruct (valS pl); [exact E|]. rewrite uprops_setf. exact E. }
+  assert (Hsi : subids p' = subids p).
+  { assert (E : subids a3 = subids p) by (unfold a3; rewrite subids_section_result; unfold a2; destruct c; reflexivity).
+    unfold p'. destruct (valS pl); [exact E|]. rewrite subids_setf. exact E. }
+  destruct (publish_finish p p' Hag Hu Hsi) as [Hs Ha].
+  clearbody p'.
+  apply (roundtrip_intro KPublish p (publish_vh ++ publish_payload) body fresh p');
+    try discriminate; try assumption; try reflexivity.
+  - assert (Hne : body <> []) by (unfold body; cbn [encode app]; unfold enc_bin, enc_u16; cbn [app]; discriminate).
+    destruct body as [|b0 body0] eqn:Eb; [congruence|]. rewrite <- Eb in *.
+    eapply unmarshal_of_run. cbn [dec_of]. unfold dec_publish.
+    rewrite (run_dec_cons _ _ _ _ D1), (run_dec_cons _ _ _ _ D2), (run_dec_cons _ _ _ _ D3),
+            (run_dec_cons _ _ _ _ D4). reflexivity.
+  - intros es Hes. injection Hes as <-. exact Ha.
+Qed.
